@@ -1,10 +1,11 @@
 #!/bin/bash
 # Confirms a seeded change delivered by a sub-agent in /tmp/seed/<ID>/out and stores it under /verif/seeded/.
-#   tools/confirm_seed.sh <ID> <n>      (n = 1 or 2)
+#   tools/confirm_seed.sh <ID> <n>      (n = 1, 2, 3 ...; SEED_ROOT overrides /tmp/seed)
 # Confirms: patch applies; workspace builds; existing suite passes with it; demo fails with it and passes without.
 set -u
 ID=$1; N=$2
-WT=/tmp/seed/$ID/wt; OUT=/tmp/seed/$ID/out
+ROOT=${SEED_ROOT:-/tmp/seed}
+WT=$ROOT/$ID/wt; OUT=$ROOT/$ID/out
 export CARGO_TARGET_DIR=$WT/target CARGO_NET_OFFLINE=true
 cd "$WT" || exit 3
 git checkout -q -- . ; rm -rf vibrato/tests
@@ -12,11 +13,13 @@ git apply --check "$OUT/patch$N.diff" || { echo "CONFIRM-FAIL $ID-$N patch does 
 git apply "$OUT/patch$N.diff"
 flags=""
 if grep -q verif_hooks "$OUT/demo$N.rs"; then flags="--cfg vibrato_verif"; fi
+feat=""
+if grep -q "trainer\|mecab" "$OUT/demo$N.rs"; then feat="--features train"; fi
 suite=$(cargo test --workspace --offline 2>&1 | grep -E "^test result" | awk '{p+=$4; f+=$6} END {print p" passed "f" failed"}')
 mkdir -p vibrato/tests && cp "$OUT/demo$N.rs" vibrato/tests/demo.rs
-RUSTFLAGS="$flags" cargo test -p vibrato --test demo --offline >/tmp/seed/$ID/demo_with_$N.log 2>&1; with=$?
+RUSTFLAGS="$flags" cargo test -p vibrato --test demo --offline $feat >$ROOT/$ID/demo_with_$N.log 2>&1; with=$?
 git checkout -q -- . 
-RUSTFLAGS="$flags" cargo test -p vibrato --test demo --offline >/tmp/seed/$ID/demo_without_$N.log 2>&1; without=$?
+RUSTFLAGS="$flags" cargo test -p vibrato --test demo --offline $feat >$ROOT/$ID/demo_without_$N.log 2>&1; without=$?
 rm -rf vibrato/tests
 echo "CONFIRM $ID-$N suite_with_patch: $suite | demo_with_patch exit=$with (want !=0) | demo_without exit=$without (want 0)"
 if [ "$with" -ne 0 ] && [ "$without" -eq 0 ] && [[ "$suite" == "107 passed 0 failed" ]]; then
